@@ -14,7 +14,7 @@ import fnmatch
 import os
 
 from vlib import c19_gen as gen
-from vlib.c19_decode import NOTIFICATION, OPEN, SESSIONS, UPDATE
+from vlib.c19_decode import NOTIFICATION, OPEN, PARAMETERS, SESSIONS, UPDATE
 from vlib.forkiso import ForkServer
 from vlib.runner import Engine, Violation
 
@@ -135,23 +135,22 @@ def analyse(messages: list) -> dict:
     return info
 
 
-def relation(messages: list, blocks: list, n: int) -> str:
+def relation(messages: list, blocks: list, n: int) -> tuple[str, str]:
     """where message n stands with respect to what was decoded before it (names the root cause in the signature)"""
     sidx, mtype, _ = messages[n]
     if mtype != UPDATE:
-        return KIND.get(mtype, str(mtype))
+        return KIND.get(mtype, str(mtype)), ''
     block = blocks[n]
     if block is None:
-        return 'update:no-attributes'
+        return 'update:no-attributes', ''
     earlier = [SESSIONS[messages[m][0]] for m in range(n) if blocks[m] == block]
     if not earlier:
-        return 'update:new-attr-block'
+        return 'update:new-attr-block', ''
     s = SESSIONS[sidx]
-    if any(p['asn4'] != s['asn4'] for p in earlier):
-        return 'update:attr-block-seen-under-other-as-width'
-    if any(p['addpath'] != s['addpath'] or p['families'] != s['families'] for p in earlier):
-        return 'update:attr-block-seen-under-other-parameters'
-    return 'update:attr-block-seen-under-same-parameters'
+    differing = sorted({k for p in earlier for k in PARAMETERS if p[k] != s[k]})
+    if differing:
+        return 'update:attr-block-seen-under-other-parameters', f' (same attribute bytes seen earlier on a session differing in {", ".join(differing)})'
+    return 'update:attr-block-seen-under-same-parameters', ''
 
 
 def check(case: dict) -> dict:
@@ -177,17 +176,17 @@ def check(case: dict) -> dict:
         alone = _FRESH[key]
         here = seq['first'][n]
         classes.add('outcome:' + alone['outcome'].split(' ')[0])
-        where = relation(messages, info['blocks'], n)
+        where, why = relation(messages, info['blocks'], n)
         name = SESSIONS[key[0]]['name']
         for field in FIELDS:
             if alone[field] != here[field]:
                 before = f'{SESSIONS[messages[n - 1][0]]["name"]}:{KIND.get(messages[n - 1][1])}:{messages[n - 1][2]}' if n else 'nothing'
                 found.append(
                     (
-                        1 if 'other-as-width' in where else 0,
+                        1 if 'other-parameters' in where else 0,
                         n,
                         f'differs:{field}:{where}',
-                        f'message {n} of {len(keys)} on session {name} ({KIND.get(key[1])} {key[2]}), previous message {before}: {_first_difference(alone[field], here[field])}',
+                        f'message {n} of {len(keys)} on session {name} ({KIND.get(key[1])} {key[2]}), previous message {before}{why}: {_first_difference(alone[field], here[field])}',
                     )
                 )
                 break
@@ -201,7 +200,7 @@ def check(case: dict) -> dict:
             if later[field] != here[field]:
                 found.append(
                     (
-                        1 if 'other-as-width' in where else 0,
+                        1 if 'other-parameters' in where else 0,
                         n,
                         f'mutated-later:{field}:{KIND.get(key[1])}',
                         f'message {n} of {len(keys)} on session {name} ({key[2]}) rendered again after messages {n + 1}..{len(keys) - 1} were processed: {_first_difference(here[field], later[field], 'at first', 'afterwards')}',
